@@ -315,16 +315,20 @@ def check_ctx_managers(repo: Repo, where: str) -> tuple[int, list[tuple[str, str
                         bad.append(("atomic_checkpoint does not put the atomic depth back", f"{desc}: depth {got[0]} afterwards"))
                     if has_hide and got[1] != hide0:
                         bad.append(("atomic_checkpoint does not put pair visibility back", f"{desc}: hide_pairs {got[1]} afterwards"))
-    for before in (False,):
+    for before in (False, True):
+        # nested use is real: implicit trivia is parsed under it, and a trivia rule may itself parse trivia
         n += 1
         st, _ = fresh_state(cm, (), None, [])
         try:
             env = dict(cm.env)
             env["state"] = st
             ev = Ev(env, where, cm, 20000)
-            ev.run(ast.parse("with state.suppress_failures():\n    INSIDE = state._suppress_failures\nAFTER = state._suppress_failures").body)
-            if env.get("INSIDE") is not True or env.get("AFTER") is not False:
-                bad.append(("suppress_failures does not switch failure recording off inside and on again after", f"inside {env.get('INSIDE')}, after {env.get('AFTER')}"))
+            src = "with state.suppress_failures():\n    INSIDE = state._suppress_failures\nAFTER = state._suppress_failures"
+            if before:
+                src = "with state.suppress_failures():\n    with state.suppress_failures():\n        INSIDE = state._suppress_failures\n    AFTER = state._suppress_failures\nOUT = state._suppress_failures"
+            ev.run(ast.parse(src).body)
+            if env.get("INSIDE") is not True or env.get("AFTER") is not before or (before and env.get("OUT") is not False):
+                bad.append(("suppress_failures does not switch failure recording off inside and back to what it was after", f"{'nested: ' if before else ''}inside {env.get('INSIDE')}, after {env.get('AFTER')}" + (f", after the outer one {env.get('OUT')}" if before else "")))
         except ModelRaise as err:
             bad.append(("suppress_failures raises", str(err)))
     for consumed in (False, True):
